@@ -14,6 +14,7 @@ tested with `is None`, not truthiness.
 Not decided: what pandas accepts as a column of 0/1 values (dtype coercions).
 """
 import ast
+import os
 import re
 
 from mmsa import au, boolset, cfg as cfgmod, dataflow
@@ -527,34 +528,9 @@ def r3_selection(repo, rep):
       reads = [c_ for c_ in conds_ if any(isinstance(x_, ast.Name) and x_.id == geos for x_ in ast.walk(c_))]
       reads = [c_ for c_ in reads if not re.fullmatch(r'%s is (not )?None' % re.escape(geos), norm(c_))]
 
-      def order_blind(c_):
-        par = {}
-        for x_ in ast.walk(c_):
-          for ch_ in ast.iter_child_nodes(x_):
-            par[id(ch_)] = x_
-        for x_ in ast.walk(c_):
-          if not (isinstance(x_, ast.Name) and x_.id == geos):
-            continue
-          cur, blind = x_, False
-          p0_ = par.get(id(x_))
-          if isinstance(p0_, ast.Compare) and len(p0_.ops) == 1 and isinstance(p0_.ops[0], (ast.Is, ast.IsNot)) and au.is_const(p0_.comparators[0], None):
-            continue          # `geos is None`: says nothing about the order
-          while id(cur) in par:
-            p_ = par[id(cur)]
-            if isinstance(p_, ast.Call) and isinstance(p_.func, ast.Name) and p_.func.id in ('set', 'frozenset', 'len', 'sorted', 'Counter', 'sum', 'min', 'max') and cur in p_.args:
-              blind = True
-            if isinstance(p_, ast.Call) and isinstance(p_.func, ast.Attribute) and p_.func.attr in ('isin', 'issubset', 'issuperset', 'isdisjoint', 'difference', 'intersection', 'union',
-                                                                                                     'symmetric_difference') and cur in p_.args:
-              blind = True
-            if isinstance(p_, ast.Compare) and any(isinstance(o_, (ast.In, ast.NotIn)) for o_ in p_.ops) and cur in p_.comparators:
-              blind = True
-            if isinstance(p_, (ast.GeneratorExp, ast.ListComp, ast.SetComp)) and isinstance(par.get(id(p_)), ast.Call) \
-                and norm(par[id(p_)].func) in ('all', 'any', 'set', 'frozenset', 'sum', 'len'):
-              blind = True
-            cur = p_
-          if not blind:
-            return False
-        return True
+      order_blind = lambda c_: au.order_blind(c_, geos) is not False
+      if os.environ.get('MMSA_DEBUG_C16'):
+        print('DEBUG reads', [(norm(c_), au.order_blind(c_, geos)) for c_ in reads], au.aliens(ast.Tuple(elts=reads, ctx=ast.Load()), {geos, indices}))
       if reads and all(order_blind(c_) for c_ in reads) and not au.aliens(ast.Tuple(elts=reads, ctx=ast.Load()), {geos, indices}):
         rep.violation('R3/selection', f.qualname, 'narrowing bypassed under ' + ' and '.join(norm(c_)[:60] for c_ in reads),
                       'in index mode the narrowing to the given subset is skipped when `%s`: that condition reads the subset only through order-insensitive operations, so a full list of geos in any other order than the table\'s is answered with positions of the table order, not of the given order'
